@@ -50,7 +50,13 @@ def _gen_one(rng, comp, urefs, sc_in_arrays, name):
             ret = {"t": rt, "arg": rng.choice(same)}
         else:
             ret = {"t": rt, "const": M.gen_scalar(rng, rt)["x"]}
-    return {"name": name, "args": args, "ret": ret}
+    p = {"name": name, "args": args, "ret": ret}
+    ints = [i for i, a in enumerate(args) if a["kind"] == "sc" and a["t"] in ("Int32", "Int64", "UInt32")]
+    if ints and rng.random() < 0.3:
+        # the description names one of the integer arguments as the number of work-items (what GPU
+        # contexts use for the launch size; a CPU kernel is an ordinary function and runs whatever it says)
+        p["nthr"] = rng.choice(ints)
+    return p
 
 
 def cur_probes(w):
@@ -162,7 +168,8 @@ def build(world, probes):
                 ut = {1: "uint8_t", 2: "uint16_t", 4: "uint32_t", 8: "uint64_t"}[n]
                 body.append(f"  {{ {ut} u_ = {u}ULL; {rdecl} r_; memcpy(&r_, &u_, {n}); return r_; }}")
         src.append(f"{rdecl} {p['name']}({', '.join(cargs)}){{\n" + "\n".join(body) + "\n}")
-        kernels[p["name"]] = xo.Kernel(args=kargs, ret=kret, c_name=p["name"])
+        extra = {"n_threads": f"a{p['nthr']}"} if p.get("nthr") is not None else {}
+        kernels[p["name"]] = xo.Kernel(args=kargs, ret=kret, c_name=p["name"], **extra)
     return "\n".join(src), kernels
 
 
